@@ -161,8 +161,14 @@ fn g_cart(r: &mut Rng) -> Vec<Val> { let (x, y) = gen_cartesian(r); vec![Val::F(
 fn c02_other(v: &[Val]) -> Result<bool, String> {
     let x = v[0].f().unwrap(); let y = v[1].f().unwrap(); let k = v[2].n().unwrap();
     let g = Geonum::new_from_cartesian(x, y);
-    gok("new_from_cartesian", &g)?;
+    canon("new_from_cartesian", &g.angle)?;
     if !same_angle(&g.angle, &Angle::new_from_cartesian(x, y)) { return Err("Geonum and Angle new_from_cartesian disagree".into()); }
+    // the length of the vector, for ALL finite x, y (reference: libm hypot, which neither overflows nor underflows early)
+    let h = x.hypot(y);
+    if h.is_finite() {
+        if !(g.mag.is_finite() && g.mag >= 0.0) { return Err(format!("new_from_cartesian({:e},{:e}) has magnitude {:e}, the vector's length is {:e}", x, y, g.mag, h)); }
+        if h >= 1e-300 && (g.mag - h).abs() > 8.0 * EPS * h { return Err(format!("new_from_cartesian({:e},{:e}) has magnitude {:e}, the vector's length is {:e}", x, y, g.mag, h)); }
+    }
     let norm = (x * x + y * y).sqrt();
     if norm > 1e-150 && norm < 1e150 {
         let (cx, cy) = cart(&g);
